@@ -15,7 +15,6 @@ substituted function); every formula handed to a proof as `using=` therefore is 
 proved earlier in the same list (checked: `inst` refuses a theorem that is not registered as proved in the same Theory)."""
 import z3
 from pyvc import terms as T
-from pyvc.api import SumOf
 from pyvc.run import Lemma
 
 I, R = z3.IntSort(), z3.RealSort()
@@ -38,17 +37,86 @@ class Thm:
         cmap = [(c, T.to_z3(v)) for c, v in (cmap.items() if isinstance(cmap, dict) else cmap)]
         fmap = list(fmap.items() if isinstance(fmap, dict) else fmap)
         assert all(c.get_id() in cids for c, _ in cmap) and all(f.get_id() in fids for f, _ in fmap), "not a symbol of the theorem"
-        return T.subst_deep(self.formula(), cmap, fmap)
+        return inst_subst(self.formula(), cmap, fmap)
+
+
+# ---- canonical Sum definitions: one SumDef per body (up to the name of the bound variable), so that a sum written explicitly in a
+# lemma and the same sum produced by instantiating a theorem are the *same* term (otherwise they are related by the congruence
+# schema, which is sound but costs a solver step per pair)
+_CBV = z3.Int("k!canon")
+_CANON = {}
+
+
+def _canon_def(body):
+    """body: a real term over _CBV"""
+    key = body.get_id()
+    if key not in _CANON:
+        params = [c for c in T.free_consts(body) if not c.eq(_CBV)]
+        params.sort(key=lambda c: c.decl().name())
+        _CANON[key] = (body, T.SumDef(_CBV, body, params))     # the body is kept alive: ids are recycled otherwise
+    return _CANON[key][1]
+
+
+class CSum:
+    """like pyvc.api.SumOf, with a canonical definition"""
+
+    def __init__(self, fn):
+        self.d = _canon_def(T.to_real(T.to_z3(fn(_CBV))))
+
+    def __call__(self, lo, hi):
+        return self.d.app(lo, hi)
+
+
+def inst_subst(t, cmap, fmap):
+    """pyvc.terms.subst_deep with canonical definitions for the rebuilt sums: functions first (Sum definitions whose bodies mention a
+    substituted function are rebuilt with the substituted body), then constants (they reach Sum bodies through the parameter lists)"""
+    fids = {f.get_id() for f, _ in fmap}
+    if fmap:
+        repl = []
+        for x in T.subterms(t).values():
+            if z3.is_app(x) and x.decl().get_id() in T.SumDef.registry:
+                d = T.SumDef.registry[x.decl().get_id()]
+                if T.mentions(d.body, (), fids):
+                    assert not T.sum_apps([d.body]), "nested sums are not supported by inst_subst"
+                    nb = z3.substitute(z3.substitute_funs(d.body, *fmap), (d.bv, _CBV))
+                    if cmap and all(a_.eq(p_) for p_, a_ in zip(d.params, x.children()[2:])):
+                        # the application passes the theorem's own constants as parameters: substitute them in the body, so that
+                        # the definition is the one an explicitly written sum over the actual constants has
+                        assert not any(c_.eq(_CBV) for _, v_ in cmap for c_ in T.free_consts(v_))
+                        nb = z3.substitute(nb, *cmap)
+                    nd = _canon_def(nb)
+                    amap = {p.get_id(): a for p, a in zip(d.params, x.children()[2:])}
+                    repl.append((x, nd.f(x.arg(0), x.arg(1), *[amap.get(p.get_id(), p) for p in nd.params])))
+        if repl:
+            t = z3.substitute(t, *repl)
+        t = z3.substitute_funs(t, *fmap)
+    if cmap:
+        t = z3.substitute(t, *cmap)
+    return t
 
 
 class Theory:
     """an ordered list of theorems with their proof obligations"""
 
     def __init__(self, prefix):
-        self.prefix, self.lemmas, self.proved, self.thms = prefix, [], set(), {}
+        self.prefix, self.lemmas, self.proved, self.thms, self.trusted = prefix, [], set(), {}, []
+
+    def extend(self, other):
+        """theorems of another theory (whose obligations are part of the same LEMMAS list) may be used here"""
+        self.proved |= other.proved
+        self.thms.update(other.thms)
+        self.trusted += other.trusted
 
     def _add(self, name, hyps, goal, note, meta=None):
         self.lemmas.append(Lemma(f"{self.prefix}.{name}", (lambda h=list(hyps), g=goal: (h, g)), note, meta=meta))
+
+    def axiom(self, name, consts, funcs, statement, note=""):
+        """a *trusted* statement (no obligation): recorded in self.trusted, to be listed in the property's TRUSTED"""
+        th = Thm(self, name, consts, funcs, [], statement, note)
+        self.trusted.append(f"{name}: {note}")
+        self.proved.add(name)
+        self.thms[name] = th
+        return th
 
     def direct(self, name, consts, funcs, hyps, concl, using=(), note="", meta=None):
         th = Thm(self, name, consts, funcs, hyps, concl, note)
@@ -79,14 +147,14 @@ def generic_sum_theory(prefix="sums"):
     th = Theory(prefix)
     g = z3.Function("g_sl", I, R)
     a, b, c, m, N, k = z3.Ints("a_sl b_sl c_sl m_sl N_sl k_sl")
-    S = SumOf(lambda j: g(T.to_z3(j)))
+    S = CSum(lambda j: g(T.to_z3(j)))
 
     # (1) sum over [a, c) = sum over [a, b) + sum over [b, c)
     split = th.induction("range_split", c, b, [a, b, c], [g], [a <= b], S(a, c) == S(a, b) + S(b, c),
                          note="sum_{a<=j<c} g = sum_{a<=j<b} g + sum_{b<=j<c} g for a <= b <= c, induction on c (schemas: empty, split-last)")
 
     # (2) index shift: sum_{a<=j<b} g(j+m) = sum_{a+m<=j<b+m} g(j)
-    Sh = SumOf(lambda j: g(T.to_z3(j) + m))
+    Sh = CSum(lambda j: g(T.to_z3(j) + m))
     shift = th.induction("index_shift", b, a, [a, b, m], [g], [], Sh(a, b) == S(a + m, b + m),
                          note="sum_{a<=j<b} g(j+m) = sum_{a+m<=j<b+m} g(j) for a <= b and any integer m, induction on b")
 
@@ -96,7 +164,7 @@ def generic_sum_theory(prefix="sums"):
                       note="from range_split at b = a+1 and split-last on [a, a+1)")
 
     # (4) reversal: sum_{a<=j<b} g(c-j) = sum_{c-b+1<=j<c-a+1} g(j)
-    Rv = SumOf(lambda j: g(c - T.to_z3(j)))
+    Rv = CSum(lambda j: g(c - T.to_z3(j)))
     rev = th.induction("index_reversal", b, a, [a, b, c], [g], [], Rv(a, b) == S(c - b + 1, c - a + 1),
                        using_step=[first.inst({a: c - b, b: c - a + 1})],
                        note="sum_{a<=j<b} g(c-j) = sum_{c-b<j<=c-a} g(j) for a <= b, induction on b with split-first on the right")
@@ -109,7 +177,7 @@ def generic_sum_theory(prefix="sums"):
                      note="x mod N = x on [0,N), x-N on [N,2N), x+N on [-N,0)")
     jj = z3.Int("jj_sl")
     mod_hyp = z3.ForAll([jj], modf.inst({a: jj}))
-    Cy = SumOf(lambda j: g((T.to_z3(j) + k) % N))
+    Cy = CSum(lambda j: g((T.to_z3(j) + k) % N))
     cyc = th.direct(
         "cyclic_shift", [N, k], [g], [N >= 1, 0 <= k, k <= N], Cy(0, N) == S(0, N),
         using=[split.inst({a: 0, b: N - k, c: N}, {g: g((j0 + k) % N)}),       # left side split at N-k
@@ -120,14 +188,22 @@ def generic_sum_theory(prefix="sums"):
         note="sum_{j<N} g((j+k) mod N) = sum_{j<N} g(j): split at N-k, resolve the modulo on each part, shift both parts, re-join")
 
     # (5b) the same for j-k
-    Cb = SumOf(lambda j: g((T.to_z3(j) - k) % N))
+    Cb = CSum(lambda j: g((T.to_z3(j) - k) % N))
     cycb = th.direct("cyclic_shift_back", [N, k], [g], [N >= 1, 0 <= k, k <= N], Cb(0, N) == S(0, N),
                      using=[cyc.inst({k: N - k}), mod_hyp],
                      note="sum_{j<N} g((j-k) mod N) = sum_{j<N} g(j): (j-k) mod N = (j+(N-k)) mod N")
 
     # (6) mirror: sum_{j<N} g((N-j) mod N) = sum_{j<N} g(j)
-    Mi = SumOf(lambda j: g((N - T.to_z3(j)) % N))
+    Mi = CSum(lambda j: g((N - T.to_z3(j)) % N))
     mir = th.direct("mirror", [N], [g], [N >= 1], Mi(0, N) == S(0, N),
                     using=[first.inst({a: 0, b: N}, {g: g((N - j0) % N)}), mod_hyp, rev.inst({a: 1, b: N, c: N}), first.inst({a: 0, b: N})],
                     note="sum_{j<N} g((N-j) mod N) = sum_{j<N} g(j): the j = 0 term is g(0), the rest is the reversal of [1, N)")
-    return th, dict(g=g, a=a, b=b, c=c, m=m, N=N, k=k, S=S, split=split, shift=shift, first=first, rev=rev, cyc=cyc, cycb=cycb, mir=mir, modf=modf)
+    # (7) linearity: sum (al g + be h) = al sum g + be sum h
+    h = z3.Function("h_sl", I, R)
+    al, be = z3.Reals("al_sl be_sl")
+    Sh2 = CSum(lambda j: h(T.to_z3(j)))
+    Sl = CSum(lambda j: al * g(T.to_z3(j)) + be * h(T.to_z3(j)))
+    lin2 = th.induction("linear_combination", b, a, [a, b, al, be], [g, h], [], Sl(a, b) == al * S(a, b) + be * Sh2(a, b),
+                        note="sum_{a<=j<b} (al g(j) + be h(j)) = al sum g + be sum h, induction on b")
+    return th, dict(g=g, h=h, a=a, b=b, c=c, m=m, N=N, k=k, al=al, be=be, S=S, split=split, shift=shift, first=first, rev=rev, cyc=cyc, cycb=cycb,
+                    mir=mir, modf=modf, lin2=lin2, mod_hyp=mod_hyp)
